@@ -11,17 +11,17 @@ MARK = "\n----------------------------------------------------------------------
 
 NOTES = {
  "C01": "as planned; the text layer (`print_int`) is `C06.count_prints_as_integer` / `create_stdout_reads_back` (`Props/C06E.lean`): counts below 2^53 are printed at precision 0 as their decimal digits and read back bit for bit.",
- "C02": "as planned. `projectIter_eq` lives with C03. Cohort cases now include targets at the f64-overflow edge of C(t, m) (seed C02-B).",
- "C03": "as planned incl. all *ext* theorems: `hyper_compose` / `project_project` and `project_marginalize_comm` (`Props/C03X.lean`: projecting all axes then summing some out = summing them out then projecting the rest). Rejected targets now include, for every axis, a target larger there and smaller elsewhere (seed C03-B).",
+ "C02": "as planned. `projectIter_eq` lives with C03. Cohort cases now include targets at the f64-overflow edge of C(t, m) (seed C02-B), and call sets over 5-8 populations (seed C02-C).",
+ "C03": "as planned incl. all *ext* theorems: `hyper_compose` / `project_project` and `project_marginalize_comm` (`Props/C03X.lean`: projecting all axes then summing some out = summing them out then projecting the rest). Rejected targets now include, for every axis, a target larger there and smaller elsewhere (seed C03-B). Whole operator rows through `Spectrum::project` at 400-4000 chromosomes (`c03.row`, seed C03-C). `Props/C03B.lean` adds the exact-arithmetic bounds behind the finiteness clause: every coefficient lies in [0, 1] and every projected entry of a non-negative spectrum is at most the input mass.",
  "C04": "as planned; the create/marginalize relation is proved in the form `marginal_is_spectrum` / `marginal_counts` (`Props/C04X.lean`): the marginal of the spectrum of a site list is the spectrum of the sites with the removed populations ignored (with `C06.create_is_spectrum` this is the `create` statement for data complete on all selected samples).",
  "C05": "as planned (`fill_table` is checked by the CLI fill cases of C17/C05 rather than as a theorem).",
  "C06": "plus `Props/C06E.lean` (counts below 2^53 survive the precision-0 text pipe between `create` and `stat` bit for bit) and the `statCli` model of the option surface (header row written before the statistics are computed, one precision for all or one each, otherwise a usage error). Model `Model/Stat.lean` (all 14 statistics, generic scalar, D statistics as (numerator, variance) pairs), specification `Spec/Stat.lean` (genotype-level and published formulas). All planned theorems incl. the three 'published' ones are proved; `linear_stat` is the key lemma. The driver evaluates the *specification* (not the model) for genotype-level cases, so model = spec is also exercised at run time.",
  "C07": "as planned, split into `Props/C07Npy.lean` / `Props/C07Text.lean`. `text_value_roundtrip` is proved for all precisions (the model's magnitude guards at ±400 decimal digits are shown harmless). The *ext* theorem `text_npy_text` (15 significant digits) is proved too (`Props/C07X.lean`, through `nearest_error`: relative error ≤ 2^-53 of the model's decimal → binary64 conversion in the normal range, for precision ≤ 300); the driver still re-checks the clause on the model for every generated case.",
  "C08": "as planned; generator now covers every ordered combination of genotype classes over three selected columns (seed C08-B).",
- "C09": "as planned except `label_perm_transposes` (no separate transposition theorem: the model recomputes ids and the correspondence compares).",
+ "C09": "as planned except `label_perm_transposes` (no separate transposition theorem: the model recomputes ids and the correspondence compares). Names and labels with blanks / punctuation / shared first words since seed C09-C.",
  "C10": "as planned; fault streams now place a ploidy error before/after a skipped sample of the same record (seed C10-B).",
  "C11": "as planned; eight site kinds instead of six (two 'every selected sample uncalled' kinds added after seed C11-A).",
- "C12": "partial, as planned. Proved: `detect_magic`, `prefix_schedule_free`, `pipeline_factors` / `containers_agree` (codecs as a parameter structure) and, without assuming an encoder exists, `pipeline_factors_decoded` / `same_calls_same_output` with a non-vacuity example. Call sets with repeated samples were added (seed C12-B).",
+ "C12": "partial, as planned. Proved: `detect_magic`, `prefix_schedule_free`, `pipeline_factors` / `containers_agree` (codecs as a parameter structure) and, without assuming an encoder exists, `pipeline_factors_decoded` / `same_calls_same_output` with a non-vacuity example. Call sets with repeated samples were added (seed C12-B), named-pipe inputs (seed C12-C). Since session 3 the codecs are also *concrete*: `Model/Inflate.lean`, `Model/Bgzf.lean`, `Model/Vcf.lean`, `Model/Container.lean` model DEFLATE, gzip / BGZF framing with CRC-32, VCF text and BCF 2.2 decoding (and plain encoders), `Props/C12B.lean` proves the round trips and `containers_agree_bytes`, and the byte-level correspondence `ct.create` runs in both directions (§17).",
  "C13": "as planned; text output at precision p is now compared too (`c13.viewtext`).",
  "C14": "all planned theorems incl. the *ext* ones: one lemma `sf_fold_weighted` (a mirror-symmetric weighted sum is fold-invariant) carries the twelve fold theorems; `f3_from_f2` / `f4_from_f2` go through `marginalize_eq_spec`. Several hypotheses turned out unnecessary (field semantics x/0 = 0); they are kept because they delimit where the binary64 code returns finite values.",
  "C15": "as planned, split into `C15Write` / `C15Grammar` / `C15Read`. The grammar theorem covers a parameterised spelling family (quote style, four spacing parameters, key order via `List.Perm`, two optional trailing commas). numpy (python3-vt) is used both ways: it loads sfs-written files, and sfs reads numpy-written files with numpy's own `astype('<f8')` as third opinion.",
@@ -30,6 +30,32 @@ NOTES = {
  "C18": "partial, as planned; all 14 theorems over `Model/IoModel.lean` proved, the noodles path explored over enumerated first-chunk lengths and failure offsets through the hook `build_from_bufread`.",
  "C19": "as planned.",
 }
+
+SECTION17 = ["---------------------------------------------------------------------------------------------", "",
+ "## 17. Session 3: the input containers inside the model, a third round of seeded changes", "",
+ "### 17.1 Container layer (more of the system inside the model)", "",
+ "Until session 2 the model of `sfs create` started at *genotype results per column*: the bytes of the input were turned into that notation by the harness, and the container codecs appeared in C12's theorems as parameters with a round-trip hypothesis. Now the whole path from input bytes to stdout is an executable Lean function, `createFromBytesC : CreateArgs → bytes → Option CreateOut` (`Model/Container.lean`):", "",
+ "| model file | what it models | lines |", "|---|---|---|",
+ "| `Model/Inflate.lean` | RFC 1951 DEFLATE decoder (bit reader, canonical Huffman decoding, stored / fixed / dynamic blocks, LZ77 copies), structured after `puff.c`; a stored-block encoder | 190 |",
+ "| `Model/Bgzf.lean` | CRC-32, gzip member parsing with FEXTRA / FNAME / FCOMMENT / FHCRC (what flate2's `MultiGzDecoder` consumes in `Format::detect`: `inflate3`), BGZF block framing by `BSIZE` with CRC and ISIZE checks (what noodles-bgzf consumes), a stored-block BGZF encoder | 125 |",
+ "| `Model/Vcf.lean` | VCF text: header lines (sample names, `##contig` / FILTER / INFO / FORMAT IDs in order = the BCF dictionaries), record lines (tab fields, POS, FORMAT keys, GT looked up by key per sample, `.` / short sample fields = missing, GT-not-first and unparsable GT = rejected record); BCF 2.x: magic, header text, records by `l_shared` / `l_indiv`, typed integers and descriptors, GT int8 vectors with end-of-vector padding and missing alleles | 300 |",
+ "| `Model/Container.lean` | the four containers with these codecs plugged into `createFromBytes`; plain encoders `vcfEncode`, `bcfEncode`, `encodeContainer` (BGZF with any block payload size) | 110 |", "",
+ "The decoders are partial on purpose: `none` means *not modelled* (quoted header values, `IDX=`, non-plain fixed fields, GT vectors wider than int8, bytes ≥ 128 in names …), never a guess. They are third-party territory in the implementation (noodles, flate2), so the theorems about them are statements about the *formats as specified*; what ties them to noodles / flate2 is the byte-level correspondence:", "",
+ "* `ct.create` (harness → model): the request carries the very bytes handed to `sfs create` on stdin — VCF text, BGZF written by the harness's block writer over *flate2-compressed* (dynamic-Huffman) DEFLATE data with arbitrary cuts and empty blocks, BCF written by noodles' own writer (with INFO and extra FORMAT fields) or by the harness. The Lean driver detects the container on them, inflates, decodes, runs `createCli` on what it decoded and compares with the binary's stdout / exit status / error site; the call set in the harness's notation is carried along and must equal what the model decoded (a difference is reported as a correspondence break without a failing input). Used by C12 (40 files per quick run), C01, C08 (every GT string of the alphabet inside real VCF text and BCF int8 vectors) and C10 (fault streams incl. corrupt lines).",
+ "* `sfsmodel --emit` (model → implementation): 36 container files per run are *written by the model's encoders* (`encodeContainer` with block payloads of 1, 3, 5, 7, 19, 64, 100, 1000, 5000, 65280 bytes; three column sets incl. names with blanks; 0-120 records over all genotype classes) and read by the real binary; its outcome must be `createCli` of the call set. This validates the encoders the round-trip theorems speak about against noodles' readers.", "",
+ "Theorems (`Props/C12B.lean`): `inflate_stored` (the full inflate model inverts the stored-block encoder and leaves the rest of the stream untouched), `bgzf_block_roundtrip`, `bgzf_roundtrip` (decoded stream = concatenation of the chunk payloads, empty chunks included), `bgzf_partition_free` (two block partitions of one payload decode alike), `gzip_peek` (the three bytes `Format::detect` reads through the gzip decoder are the first payload bytes), `vcf_roundtrip`, `bcf_roundtrip` (for well-formed call sets `WfCallSet`: non-empty ASCII names without tab / newline, alphanumeric contig names, positions ≥ 1, one GT per column; sizes that fit the BCF length fields), `detect_encoded`, and `containers_agree_bytes`: for every well-formed call set, every container and every BGZF block size, `createFromBytesC a (encodeContainer blk … c) = some (createCli a cols recs)` — the C12 statement with nothing left abstract except threads and transports. Compressed DEFLATE blocks are handled by the model and exercised on flate2 output, but the round-trip *theorem* is for the stored encoder (no compressor is modelled).", "",
+ "### 17.2 Third round of seeded changes (19, one per property)", "",
+ "Sub-agents were told the mechanisms used in rounds 1-2 and asked for different ones. 7 of 19 were caught by the property's own quick check as it stood; 12 were first missed by it (3 of those by every check) and led to generator work — never to a looser comparison:", "",
+ "* unique positions: every generated record had its own position, so anything keyed on `CHROM:POS` of the previous record was invisible (C10-C, C11-C) → consecutive records now share positions in C01 / C02 / C10 / C11 / C12, and the in-memory reader reports the record's own site;",
+ "* at most four populations (C02-C: a cache key that shifts out leading populations for 5-8) → 5-8 population call sets;",
+ "* large sizes reached only through `hypergeometric_pmf` (C03-C: a new row function with a recurrence that underflows) → whole operator rows through `Spectrum::project` at 400-4000 chromosomes;",
+ "* labels `A`-`E`, names `s0`… (C09-C: `split_whitespace` in the samples file) → names / labels with blanks, punctuation, shared first words, empty label;",
+ "* inputs by path were regular files and chunking went through the hook (C12-C: in-place detection for path inputs only) → named-pipe inputs with a short first write in C12 and C18;",
+ "* one statistic per invocation in C14 (C14-C, C06-C: statistics sharing an invocation share a normalisation / a column order) → invocations computing everything applicable at once, in random order;",
+ "* small written arrays (C15-C: a block writer that repeats stale values beyond 8192) → 8192 / 8193 / 9261 / 10201 / 16385-value spectra in C15 and C07; aligned-header shapes in C07 (C07-C);",
+ "* sampled triploid strings (C08-C: all-missing `././.` taken for missing) → the quick tier covers every triploid string over {., 0, 1};",
+ "* degenerate shapes with at least one axis (C17-C: 0-d npy accepted, `Display for Shape` indexes `[0]`) → `()`, `(,)`, `<>` headers x every statistic.", "",
+ "`tools/sweep_seeds.sh` re-applies all 69 stored changes to a scratch copy of the repository and runs the owning property's quick check; it is a development tool (run through `vp run --with-repo`), not a registered check.", ""]
 
 def main():
     path = os.path.join(VERIF, "DESIGN.md")
@@ -111,6 +137,7 @@ def main():
         for k, v in sorted(files.items()):
             out.append(f"| {k} | {v['best']} / {v['lines']} ({100 * v['best'] // max(1, v['lines'])}%) | {v['by']} |")
         out += ["", "Not executed by any run: logging set-up and `--help` paths in `cli/src/main.rs`, `Display`/`Debug` impls and error-message formatting, the `x < 0.5` branch of `ln_gamma` (unreachable from the callers), `FayWu` (dead code), file-path variants of readers that the harness drives through stdin.", ""]
+    out += SECTION17
     open(path, "w").write(s + "\n".join(out) + "\n")
     print("DESIGN.md sections 11-15 regenerated")
 
